@@ -50,6 +50,52 @@ def _first_even(xs):
     return None
 
 
+def _find(xs, lo, hi):
+    n = 0
+    while n < len(xs):
+        v = xs[n]
+        if v < lo:
+            n += 1
+            continue
+        if v > hi:
+            return ("high", n)
+        if v == lo:
+            return ("exact", n)
+        n += 2
+    return ("none", n)
+
+
+def _two_yields(xs):
+    for x in xs:
+        if x < 0:
+            yield -x
+        yield x
+
+
+def use_find(xs, lo):
+    kind, pos = _find(xs, lo, lo + 5)
+    return kind + str(pos)
+
+
+def use_find_test(xs, lo):
+    if _find(xs, lo, lo + 5)[0] == "none":
+        return 0
+    return 1
+
+
+def use_two_yields(xs):
+    out = []
+    for v in _two_yields(xs):
+        out.append(v + 1)
+    return out
+
+
+def use_bounds(a, b):
+    t = (a, b, a + b)
+    p, q, r = t
+    return p * q - r
+
+
 def _mutate(lst, v):
     lst.append(v)
 
@@ -271,10 +317,10 @@ def main():
         shutil.rmtree(tmp, ignore_errors=True)
     a, b = build(SRC, "orig"), build(norm_src, "norm")
     ints = [-4, -1, 0, 1, 3, 7, 12]
-    lists = [[], [1], [2, 3], [1, 3, 5], [4, 6, 9, 12], [5, 4, 3, 2, 1]]
+    lists = [[], [1], [2, 3], [1, 3, 5], [4, 6, 9, 12], [5, 4, 3, 2, 1], [-2, 7, -1, 0], [0, 2, 9]]
     cases = []
     for x, y in itertools.product(ints, ints):
-        for f in ("use_pred", "use_pair", "use_pair_attr", "use_reassign", "use_reassign_ret", "use_tuple_assign"):
+        for f in ("use_pred", "use_pair", "use_pair_attr", "use_reassign", "use_reassign_ret", "use_tuple_assign", "use_bounds"):
             cases.append((f, (x, y)))
     for x in ints:
         for f in ("use_clip", "use_clip_ret", "use_mutate", "use_order", "use_chain", "use_ifexp", "use_while", "use_displays"):
@@ -282,6 +328,11 @@ def main():
     for xs in lists:
         for f in ("use_first_even", "use_aug", "use_enum", "use_list_yield_from"):
             cases.append((f, (xs,)))
+        for f in ("use_two_yields",):
+            cases.append((f, (xs,)))
+        for lo in (0, 2, 4):
+            cases.append(("use_find", (xs, lo)))
+            cases.append(("use_find_test", (xs, lo)))
         for k in (1, 2, 3):
             cases.append(("use_gen", (xs, k)))
             cases.append(("use_gen_yield_from", (xs, k)))
